@@ -13,12 +13,12 @@ LEVEL_TEXT = ('Lean 4 theorems about the executable blur model at ℂ/ℝ whose 
               'angles, pixel scales and oversampling factors: kernel shape = image shape; the kernels are the separable sinc, '
               'exp(−2π²σ²ρ²) and the directional sinc in closed form; gain 1 at zero frequency; outputs non-negative; blurs commute with '
               'circular shifts; zero extent is the identity; jitter/smear keep the total of every image with non-zero total; only '
-              'extent/pixelscale·oversample enters; the kernels are Hermitian on odd axes, hence on odd×odd images the filtered image is '
-              'real and the output equals the exact circular convolution wherever that is non-negative (total kept). The driver runs '
+              'extent/pixelscale·oversample enters (unit invariance); pixel and jitter kernels are Hermitian on every shape and smear on odd axes, hence the '
+              'filtered image is real and the output equals the exact circular convolution wherever that is non-negative (total kept) — pixel, jitter: all '
+              'shapes; smear: odd×odd, with a proved Nyquist-line bound on even axes; the convolution is the spatial circular convolution with ifft2(K). The driver runs '
               'these very definitions at doubles against the real functions.')
-LEVEL_NOTE = ('Partial: on even-sized axes "equals the convolution" is proved only conditionally on the convolution being real and '
-              'non-negative (the unpaired Nyquist row/column breaks Hermitian symmetry; the size of that deviation has no theorem), and '
-              'the spatial-domain form of the convolution (convolution theorem) is not stated; pixelate and smear(angle=None) are covered '
+LEVEL_NOTE = ('Partial: for smear on even-sized axes the unpaired Nyquist row/column breaks Hermitian symmetry; the deviation of the un-normalised '
+              'output is bounded by that row/column (theorem), the renormalised one only by the oracle; pixelate and smear(angle=None) are covered '
               'by the oracle only. Trusted: np.fft.fft2/ifft2 are the plain DFT pair with origin at index 0, np.fft.fftfreq follows its '
               'documented index map, np.sinc/np.exp/np.abs/np.meshgrid as named; rounding not modelled.')
 TECHNIQUE = 'Lean 4 proof (Finset sums, roots-of-unity orthogonality, periodic reindexing, sinc/exp) over an executable model defined from translator-regenerated kernels + differential correspondence'
@@ -31,9 +31,9 @@ RULE = ('cases: non-negative images with rows, cols drawn independently from 1..
         'physical units (outside what the test-suite samples) A ≈5 % sample (search tier: a leading block of 220) comes from an extremes stream: pixel scales 1e-12 … 1e-8 and 1e3 … 1e9 with multi-pixel extents, int16/int32/uint8/uint16/uint32/int64 frames at the limits of their dtype (totals beyond 2³¹), image amplitudes 1e-100 … 1e9, extents 0 / 5e-324 / 1e-300 / 25–60 px, frames of 257–1024 samples along one axis (search only); all tolerances are relative to Σ img.')
 TRUSTED = ['np.fft.fft2 / ifft2 are the un-normalised DFT and its inverse with origin at index 0; np.fft.fftfreq(n) = [0,1,…,⌈n/2⌉-1,-⌊n/2⌋,…,-1]/n; '
            'np.sinc(x) = sin(πx)/(πx); np.meshgrid(x, y) puts x along columns (all modelled in Model/Blur.lean, observed through the correspondence)']
-UNPROVEN = ['even-sized axes: the deviation of the output from the exact convolution caused by the unpaired Nyquist row/column is not bounded '
-            'by a theorem (only the conditional nonneg_convolution_kept_partial); the oracle allows exactly that contribution',
-            'the spatial-domain form of the circular convolution (convolution theorem) is not stated; the convolution is taken in its Fourier form',
+UNPROVEN = ['smear on even-sized axes: the deviation from |c_H| (c_H the real convolution with the Hermitian part of the kernel) is bounded by the '
+            'Nyquist row/column contribution (smear_even_axis_deviation) for the un-normalised output; how the renormalisation factor moves that '
+            'bound is not stated (the oracle allows the Nyquist contribution scaled by Σimg/Σout)',
             'pixelate (= rescale(pixel(img, os), 1/os, order 3, nearest, unitary), shape ceil(n/os), total kept) and smear(angle=None) '
             '(one uniform(0, 2π) draw of the global generator, reproducible under a seed) are evaluated by the oracle only']
 ASSUMPTIONS = ['images are non-negative with positive total (an all-zero image makes jitter/smear return 0/0)', 'shapes at least 1x1',
@@ -61,6 +61,11 @@ def _img(rng, shape):
         for _ in range(k): a[int(rng.integers(0, m)), int(rng.integers(0, n))] += float(rng.uniform(0.5, 5))
     elif t == 2:
         a = np.full((m, n), float(rng.uniform(0.5, 3)))                     # constant
+    elif rng.integers(0, 3) == 0:
+        # Nyquist-dominated: checkerboard / stripes on a background (the content the even-axis allowance is about)
+        ii, jj = np.meshgrid(np.arange(m), np.arange(n), indexing='ij')
+        pat = [(-1.0) ** (ii + jj), (-1.0) ** ii, (-1.0) ** jj][int(rng.integers(0, 3))]
+        a = float(rng.uniform(1.0, 2.0)) + float(rng.uniform(0.2, 1.0)) * pat
     else:
         a = rng.uniform(0, 1, (m, n)) * (rng.uniform(size=(m, n)) < 0.6)
         if not a.any(): a[0, 0] = 1.0
@@ -88,6 +93,9 @@ def _case(rng, kmax):
         c['oversample'] = 1; c['pixelscale'] = 1.0; c['defaults'] = True
         if kind != 'pixel': c['extent'] = c['extent_px'] = float(c['extent_px'])
     if kind == 'pixel' and isinstance(c['oversample'], int) and rng.integers(0, 2): c['pixelate'] = True
+    c['layout'] = ['C', 'C', 'F', 'strided', 'readonly', 'float32'][int(rng.integers(0, 6))]
+    if c['layout'] == 'float32': c['img'] = [float(np.float32(x)) for x in c['img']]
+    if kind == 'smear' and rng.integers(0, 4) == 0: c['angle'] = [0.0, 90.0, 270.0, 45.0, 135.0][int(rng.integers(0, 5))]
     if kind == 'smear' and rng.integers(0, 3) == 0: c['random_angle_seed'] = int(rng.integers(0, 2 ** 31))
     return c
 
@@ -97,6 +105,7 @@ def _extreme(rng, kmax, heavy):
     long 1-D-like frames (`heavy`: search tier only)"""
     c = _case(rng, kmax)
     for k in ('defaults', 'pixelate', 'random_angle_seed'): c.pop(k, None)
+    if c.get('layout') == 'float32': c['layout'] = 'C'          # the extremes below are not representable in single precision
     t = int(rng.integers(0, 6 if heavy else 5))
     if c['kind'] == 'pixel' and t in (0, 1, 4): t = 2
     if t in (0, 1):      # the unit of extent and pixel scale
@@ -134,7 +143,7 @@ def generate(rng, tier):
 
 def signature(c):
     return (f"{c['kind']} {c['shape']} os={c['oversample']} ps={c['pixelscale']} e={c.get('extent')} a={c.get('angle')} roll={c['roll']} "
-            f"dt={c.get('dtype')} d={int(bool(c.get('defaults')))} p={int(bool(c.get('pixelate')))} r={c.get('random_angle_seed')} {vlib.jhash(c['img'])}")
+            f"lay={c.get('layout')} dt={c.get('dtype')} d={int(bool(c.get('defaults')))} p={int(bool(c.get('pixelate')))} r={c.get('random_angle_seed')} {vlib.jhash(c['img'])}")
 
 def nontrivial(c):
     return c['shape'][0] != c['shape'][1] or c['oversample'] != 1 or c['pixelscale'] != 1.0
@@ -142,6 +151,7 @@ def nontrivial(c):
 def tags(c):
     t = [c['kind'], f"os={c['oversample']}"]
     if c.get('defaults'): t.append('default-arguments')
+    if c.get('layout', 'C') != 'C': t.append('layout:' + c['layout'])
     if c.get('dtype'): t.append('dtype:' + c['dtype'])
     if c['pixelscale'] < 1e-7: t.append('nano-scale-units')
     if c['pixelscale'] > 1e2: t.append('huge-units')
@@ -185,6 +195,12 @@ def impl(c):
     lentil = vlib.import_lentil()
     img = _image(c)
     if c.get('dtype'): img = img.astype(c['dtype'])          # integer frames (values are integers; the references use float64)
+    lay = c.get('layout', 'C')
+    if lay == 'F': img = np.asfortranarray(img)
+    elif lay == 'strided':
+        big = np.zeros((img.shape[0] * 2, img.shape[1] * 2), dtype=img.dtype); big[::2, 1::2] = img; img = big[::2, 1::2]
+    elif lay == 'float32' and not c.get('dtype'): img = img.astype(np.float32)
+    elif lay == 'readonly': img = img.copy(); img.flags.writeable = False
     img0 = img.copy()
     def guarded(f):
         try: return _pack(f())
@@ -233,7 +249,7 @@ def compare(c, io, mo):
     if 'exc' in io['out']: return f"implementation raised {io['out']['exc']}: {io['out'].get('msg')}; the model answered"
     got = _arr(io['out']); want = np.array([bitsf(x) for x in m['out']['v']]).reshape(m['out']['shape'])
     if got.shape != want.shape: return f'shape impl {got.shape} model {want.shape}'
-    tol = TOL * max(float(np.sum(np.abs(_image(c)))), 1e-300)
+    tol = (3e-6 if c.get('layout') == 'float32' else TOL) * max(float(np.sum(np.abs(_image(c)))), 1e-300)      # float32 frames: single-precision sums
     d = float(np.max(np.abs(got - want)))
     return None if d <= tol else f'max |impl - model| = {d:.3e} > {tol:.1e}'
 
@@ -267,7 +283,8 @@ def ref_convolution(c):
     return (np.conj(Wm) @ (X * transfer(c)) @ np.conj(Wn)) / (m * n)
 
 def oracle(c, io):
-    img = _image(c); S = float(img.sum()); tol = TOL * max(S, 1e-300)      # relative to the image scale only
+    img = _image(c); S = float(img.sum())
+    tol = (3e-6 if c.get('layout') == 'float32' else TOL) * max(S, 1e-300)      # relative to the image scale only (float32 frames: single-precision sums)
     if not io['input']['untouched']: return "the caller's image was modified"
     arrs = {k: d for k, d in io.items() if isinstance(d, dict) and ('v' in d or 'exc' in d)}
     if c['kind'] == 'pixel' and 'exc' in arrs.get('zero', {}): arrs.pop('zero')      # a library that refuses oversample=0 is not in violation
@@ -319,7 +336,7 @@ def oracle(c, io):
         if got.shape != want: return f"pixelate: shape {got.shape}, expected ceil(shape/oversample) = {want}"
         if got.shape != ref.shape or not float(np.max(np.abs(got - ref))) <= tol:
             return 'pixelate differs from rescale(pixel(img, oversample), 1/oversample, order=3, mode="nearest", unitary=True)'
-        if img.min() > 0 and not abs(got.sum() - out.sum()) <= 1e-9 * abs(out.sum()) and np.all(got > 0):
+        if img.min() > 0 and not abs(got.sum() - out.sum()) <= (3e-6 if c.get('layout') == 'float32' else 1e-9) * abs(out.sum()) and np.all(got > 0):
             return f'pixelate does not keep the total of the pixel-blurred image: {out.sum()} -> {got.sum()}'
     if 'rand1' in arrs:
         r1, r2, rr = _arr(io['rand1']), _arr(io['rand2']), _arr(io['rand_ref'])
